@@ -72,13 +72,16 @@ def gen_op(rng, n_query, allow_nested=True):
                      'encoding': rng.choice(['csr', 'csc', 'dense']),
                      'flatten': rng.random() < 0.15}
     elif stage == 'stats':
-        op['cfg'] = {'rows_at_a_time': rng.randint(1, 9)}
+        op['cfg'] = {'rows_at_a_time': rng.randint(1, 9), 'copy_data_over': rng.random() < 0.4}
     elif stage in ('refmarkers', 'pmask', 'pmask_markers'):
         op['cfg'] = {'n_valid': rng.choice([2, 5]), 'p_th': rng.choice([0.01, 0.5])}
     elif stage == 'qmarkers':
         op['cfg'] = {'n_per_utility': rng.randint(1, 3), 'synthetic_table': rng.random() < 0.5}
     else:
-        op['cfg'] = {'round_to_int': rng.random() < 0.7, 'use_output_dir': rng.random() < 0.5}
+        # 'chain': validate the product of an earlier validation of this history, writing next to it
+        # (the *_VALIDATED_<timestamp>.h5ad naming then depends on the clock alone)
+        op['cfg'] = {'round_to_int': rng.random() < 0.7, 'use_output_dir': rng.random() < 0.5,
+                     'chain': rng.random() < 0.5}
     r = rng.random()
     if r < 0.3:
         op['fault'] = {'kind': 'worker', 'worker': rng.randint(0, 3), 'mode': rng.choice(['kill', 'exit', 'raise']),
@@ -229,7 +232,8 @@ def call_op(sb, ctx, op, out_dir, scratch, sched, clean=False):
         return harness.run_call(sched, drivers.run_mapping, dcfg)
     if st == 'stats':
         return harness.run_call(sched, drivers.run_precompute, [ctx['ref']], ctx['tax_dict'], o['stats'], scratch,
-                                rows_at_a_time=cfg['rows_at_a_time'], n_processors=max(2, npr))
+                                rows_at_a_time=cfg['rows_at_a_time'], n_processors=max(2, npr),
+                                copy_data_over=cfg.get('copy_data_over', False))
     if st == 'refmarkers':
         return harness.run_call(sched, drivers.run_find_markers, ctx['stats'], o['refm'], scratch,
                                 n_processors=max(2, npr), n_valid=cfg['n_valid'], p_th=cfg['p_th'])
@@ -246,13 +250,27 @@ def call_op(sb, ctx, op, out_dir, scratch, sched, clean=False):
     from cell_type_mapper.validation.validate_h5ad import validate_h5ad
     from cell_type_mapper.gene_id.gene_id_mapper import GeneIdMapper
     mapper = GeneIdMapper(data={'symA': 'ENSMUSG99999999999'})
-    kw = dict(h5ad_path=sb.p('in', 'val.h5ad'), gene_id_mapper=mapper, tmp_dir=scratch, layer='X',
+    src = sb.p('in', 'val.h5ad')
+    chained = None
+    if cfg.get('chain') and not clean and ctx.get('validated_products'):
+        chained = ctx['validated_products'][-1]
+        if os.path.exists(chained):
+            src = chained
+        else:
+            chained = None
+    kw = dict(h5ad_path=src, gene_id_mapper=mapper, tmp_dir=scratch, layer='X',
               round_to_int=cfg['round_to_int'])
-    if cfg['use_output_dir']:
+    if chained is not None:
+        kw['output_dir'] = os.path.dirname(chained)
+        ctx['chained_input'] = chained
+    elif cfg['use_output_dir']:
         kw['output_dir'] = out_dir
     else:
         kw['valid_h5ad_path'] = o['valid']
-    return harness.run_call(sched, validate_h5ad, **kw)
+    out, s_ = harness.run_call(sched, validate_h5ad, **kw)
+    if out[0] == 'ok' and not clean and out[1][0] is not None and '_VALIDATED_' in os.path.basename(str(out[1][0])):
+        ctx.setdefault('validated_products', []).append(str(out[1][0]))
+    return out, s_
 
 
 def op_digest(op, out_dir, outcome):
@@ -406,6 +424,11 @@ def run(scn, sb):
                     finally:
                         KERNEL.statvfs_full, KERNEL.parent_fault = saved
                 KERNEL.nested_cb = cb
+            chain_before = None
+            if op['stage'] == 'validate' and op['cfg'].get('chain') and ctx.get('validated_products') \
+                    and os.path.exists(ctx['validated_products'][-1]):
+                cpath = ctx['validated_products'][-1]
+                chain_before = (cpath, harness.file_sha(cpath))
             apply_fault(op, sched, n_events=cleans[0][3])
             try:
                 out, s = call_op(sb, ctx, op, out_dir, scratch, sched)
@@ -448,6 +471,16 @@ def run(scn, sb):
                                              ' fault=%s' % json.dumps(f) if f else '', out[0])
             op_summ.append(desc + ((': ' + out[1][:80]) if out[0] == 'raised' else ''))
             # ---- (1) inputs untouched
+            if chain_before is not None:
+                pr['validation_of_an_earlier_product'] = pr.get('validation_of_an_earlier_product', 0) + 1
+                cpath, csha = chain_before
+                if not os.path.exists(cpath):
+                    viol.append({'cls': 'input-deleted', 'detail': '%s: the input %s (product of an earlier validation, '
+                                 'validated again into its own directory) no longer exists'
+                                 % (desc, os.path.basename(cpath))})
+                elif harness.file_sha(cpath) != csha:
+                    viol.append({'cls': 'input-modified', 'detail': '%s: the input %s (product of an earlier validation) '
+                                 'was overwritten' % (desc, os.path.basename(cpath))})
             in_after = input_state(sb)
             for rel in sorted(set(in_before) | set(in_after)):
                 a, b = in_before.get(rel), in_after.get(rel)
